@@ -110,7 +110,40 @@ def lifecycle_descs(tier, seed, hib_values=(False, True), objs=("twofunnel", "pl
     return out
 
 
-def lifecycle_units(tier, seed, **kw):
+def mechanism_descs(tier, seed):
+    """Worlds with the shipped and user-composed sprout mechanisms (real generators, real filters)."""
+    s = 1 + seed % 1000
+    shapes = [("SEA", "DE"), ("DE", "CMAf"), ("SHADE", "SEAX"), ("LHS", "SOB"), ("SEA", "DE", "CMAf"), ("DE", "SEA", "LOC"), ("GA", "CMAw", "LOC"), ("SEAA", "SHADE", "DE"),
+              ("MWEA", "DEd"), ("SOB", "SEA", "SHADE")]
+    if tier == "thorough":
+        shapes += [tuple(x) for x in rep_shapes()]
+    mechs = [
+        {"kind": "simple"}, {"kind": "nbc"}, {"kind": "nbclocal"},
+        {"kind": "composed", "gen": {"kind": "nbc", "factor": 2.0, "trunc": 1.0}, "deme_chain": [{"kind": "demelimit", "limit": 2}],
+         "tree_chain": [{"kind": "levellimit"}, {"kind": "skipsame"}]},
+        {"kind": "composed", "gen": {"kind": "best"}, "deme_chain": [], "tree_chain": [{"kind": "skipsame"}, {"kind": "levellimit"}]},
+        {"kind": "composed", "gen": {"kind": "nbc", "factor": 1.0, "trunc": 0.7}, "deme_chain": [{"kind": "nbcfar", "factor": 0.5, "only_active": True}],
+         "tree_chain": [{"kind": "levellimit"}]},
+    ]
+    out = []
+    k = 0
+    lscs = [None, {"kind": "metaepoch", "m": 2}, "allchildren", {"kind": "steadiness", "n": 2, "dev": 0.5}]
+    for eng in shapes:
+        for mi, m in enumerate(mechs):
+            if m["kind"] == "nbclocal" and len(eng) < 3:
+                continue
+            k += 1
+            L = 1 + k % 3
+            sp = dict(m, L=L)
+            if "tree_chain" in sp:
+                sp["tree_chain"] = [dict(f, limit=L) if f["kind"] == "levellimit" else f for f in sp["tree_chain"]]
+            out.append(dict(engines=list(eng), gens=1 + k % 2, Mh=5, hib=bool(k % 2), seed=s + k % 2, choices="GL", maximize=bool((k // 2) % 2),
+                            lsc=[None] + [lscs[(k + j) % len(lscs)] for j in range(1, len(eng))], sprout=sp,
+                            obj=("twofunnel", "sphere_in", "plateau")[k % 3], box=("B_asym", "B_sym")[k % 2]))
+    return out
+
+
+def lifecycle_units(tier, seed, mechanisms=True, **kw):
     us = []
     b = 2 if tier == "quick" else 3
     for mode, desc in lifecycle_descs(tier, seed, **kw):
@@ -118,6 +151,9 @@ def lifecycle_units(tier, seed, **kw):
             us += split_units(desc, 99, "LS", {"mode": mode})
         else:
             us += split_units(desc, b, "GLS", {"mode": mode})
+    if mechanisms:
+        for desc in mechanism_descs(tier, seed):
+            us += split_units(desc, 1 if tier == "quick" else 2, "GL", {"mode": "mechanism"})
     return us
 
 
